@@ -33,14 +33,14 @@ SCENARIOS = {
 
 # runs per tier (tuned so that quick stays well under its time-out on 16 cores)
 BUDGET = {
-    "C03": {"quick": 480, "thorough": 24000},
-    "C06": {"quick": 640, "thorough": 24000},
-    "C07": {"quick": 480, "thorough": 12000},
-    "C08": {"quick": 640, "thorough": 24000},
-    "C09": {"quick": 960, "thorough": 40000},
-    "C10": {"quick": 1600, "thorough": 60000},
-    "C12": {"quick": 640, "thorough": 24000},
-    "C14": {"quick": 1600, "thorough": 60000},
+    "C03": {"quick": 4000, "thorough": 200000},
+    "C06": {"quick": 8000, "thorough": 400000},
+    "C07": {"quick": 2000, "thorough": 120000},
+    "C08": {"quick": 20000, "thorough": 1500000},
+    "C09": {"quick": 25000, "thorough": 2000000},
+    "C10": {"quick": 20000, "thorough": 1200000},
+    "C12": {"quick": 3000, "thorough": 200000},
+    "C14": {"quick": 25000, "thorough": 2000000},
 }
 WALL = {"quick": 420, "thorough": 2700}
 RUN_TIMEOUT = 120
@@ -104,15 +104,46 @@ def generate_record(prop, verif_seed, index):
     return json.loads(json.dumps(rec))
 
 
+def _sig_hash(sig):
+    import hashlib
+    return hashlib.blake2b(sig.encode(), digest_size=8).digest()
+
+
 def _worker(args):
+    """Runs a chunk of run indices and returns an AGGREGATE (so that millions of runs fit in memory): counters, hashed
+    signature/state sets, the records of violating runs (first per class within the chunk), harness errors, samples."""
     prop, verif_seed, indices = args
     faulthandler.enable()
-    out = []
+    agg = {"n_ok": 0, "probes": {}, "faults": {}, "events": {}, "sigs": set(), "states": set(), "violations": [],
+           "class_counts": {}, "harness": [], "samples": [], "first": None, "digests": []}
+    seen_cls = set()
     for i in indices:
         rec = generate_record(prop, verif_seed, i)
-        res = execute_record(prop, rec)
-        out.append((i, rec, res.to_json()))
-    return out
+        rj = execute_record(prop, rec).to_json()
+        if agg["first"] is None:
+            agg["first"] = rec
+        if rj["harness_error"]:
+            agg["harness"].append(f"run {i} (seed {rec['run_seed']}): {rj['harness_error']}")
+            continue
+        agg["n_ok"] += 1
+        agg["digests"].append((i, rj["digest"]))
+        for name in ("probes", "faults", "events"):
+            d = agg[name]
+            for k, v in rj[name].items():
+                d[k] = d.get(k, 0) + v
+        if rj["nontrivial"]:
+            agg["sigs"].add(_sig_hash(rj["signature"]))
+            if len(agg["samples"]) < 1:
+                agg["samples"].append(rec)
+        for st in rj["state_keys"]:
+            agg["states"].add(_sig_hash(st))
+        for v in rj["violations"]:
+            cls = v["class"]
+            agg["class_counts"][cls] = agg["class_counts"].get(cls, 0) + 1
+            if cls not in seen_cls:
+                seen_cls.add(cls)
+                agg["violations"].append((i, rec, v, rj["digest"]))
+    return agg
 
 
 def load_known():
@@ -142,9 +173,9 @@ def run_check(prop, tier, verif_seed, runs=None, workers=None, shrink=True, quie
     n_runs = runs if runs is not None else BUDGET[prop][tier]
     workers = workers or min(16, os.cpu_count() or 1)
     wall = WALL[tier]
-    chunk = 4 if tier == "quick" else 8
+    chunk = max(4, min(64, n_runs // (workers * 40)))
     tasks = [(prop, verif_seed, list(range(i, min(i + chunk, n_runs)))) for i in range(0, n_runs, chunk)]
-    results = []
+    aggs = []
     harness_errors = []
     truncated = False
     ctx = mp.get_context("fork")
@@ -153,7 +184,7 @@ def run_check(prop, tier, verif_seed, runs=None, workers=None, shrink=True, quie
         try:
             for f in cf.as_completed(futs, timeout=wall):
                 try:
-                    results.extend(f.result())
+                    aggs.append((futs[f][2][0], f.result()))
                 except Exception as e:
                     harness_errors.append(f"worker died on indices {futs[f][2]}: {type(e).__name__}: {e}")
         except cf.TimeoutError:
@@ -166,7 +197,7 @@ def run_check(prop, tier, verif_seed, runs=None, workers=None, shrink=True, quie
                     p.terminate()
                 except Exception:
                     pass
-    results.sort(key=lambda t: t[0])
+    aggs.sort(key=lambda t: t[0])
     entries = load_known()
     by_class = {}
     known_seen = {}
@@ -174,44 +205,58 @@ def run_check(prop, tier, verif_seed, runs=None, workers=None, shrink=True, quie
     signatures = set()
     states = set()
     samples = []
-    for i, rec, rj in results:
-        if rj["harness_error"]:
-            harness_errors.append(f"run {i} (seed {rec['run_seed']}): {rj['harness_error']}")
-            continue
-        for k, v in rj["probes"].items():
-            probes[k] = probes.get(k, 0) + v
-        for k, v in rj["faults"].items():
-            faults[k] = faults.get(k, 0) + v
-        for k, v in rj["events"].items():
-            events[k] = events.get(k, 0) + v
-        if rj["nontrivial"]:
-            signatures.add(rj["signature"])
-        states.update(rj["state_keys"])
-        if len(samples) < 3 and rj["nontrivial"]:
-            samples.append({k: rec[k] for k in rec if k not in ("sim_version",)})
-        for v in rj["violations"]:
-            cls = v["class"]
+    n_ok = 0
+    first_rec = None
+    import hashlib
+    batch = hashlib.sha256()
+    for _, a in aggs:
+        for i, dg in a["digests"]:
+            batch.update(f"{i}:{dg};".encode())
+        n_ok += a["n_ok"]
+        harness_errors.extend(a["harness"])
+        if first_rec is None:
+            first_rec = a["first"]
+        for name, tgt in (("probes", probes), ("faults", faults), ("events", events)):
+            for k, v in a[name].items():
+                tgt[k] = tgt.get(k, 0) + v
+        signatures |= a["sigs"]
+        states |= a["states"]
+        if len(samples) < 3:
+            samples.extend(a["samples"][:1])
+        for cls, cnt in a["class_counts"].items():
             e = known_match(entries, prop, cls)
             if e is not None:
-                known_seen.setdefault(cls, [e, 0])[1] += 1
-            else:
-                by_class.setdefault(cls, []).append((i, rec, v, rj["digest"]))
-    if not samples and results:
-        samples.append(results[0][1])
+                known_seen.setdefault(cls, [e, 0])[1] += cnt
+        for (i, rec, v, digest) in a["violations"]:
+            cls = v["class"]
+            if known_match(entries, prop, cls) is None:
+                lst = by_class.setdefault(cls, [[], 0])
+                lst[0].append((i, rec, v, digest))
+        for cls, cnt in a["class_counts"].items():
+            if cls in by_class:
+                by_class[cls][1] += cnt
+    samples = [{k: r[k] for k in r if k != "sim_version"} for r in samples]
+    if not samples and first_rec is not None:
+        samples.append(first_rec)
 
     violations_out = []
     os.makedirs(OUT_DIR, exist_ok=True)
-    for cls, lst in sorted(by_class.items()):
+    shrink_deadline = time.time() + (150 if tier == "quick" else 600)   # total minimisation budget of this check
+    for cls, (lst, count) in sorted(by_class.items()):
+        lst.sort(key=lambda t: t[0])
         i, rec, v, digest = lst[0]
         final = rec
         note = None
-        if shrink:
+        remaining = shrink_deadline - time.time()
+        if shrink and remaining > 5:
             try:
                 from .shrink import minimise
-                final, note = minimise(prop, rec, cls, time_limit=60 if tier == "quick" else 240)
+                final, note = minimise(prop, rec, cls, time_limit=min(60 if tier == "quick" else 240, remaining))
             except Exception as e:  # minimisation is best effort; the unshrunk record is still a valid replay
                 note = f"minimisation failed: {type(e).__name__}: {e}"
                 final = rec
+        elif shrink:
+            note = "not minimised: the minimisation budget of this check was spent on earlier classes"
         res2 = execute_record(prop, final)
         if cls not in res2.classes():
             final, res2 = rec, execute_record(prop, rec)
@@ -223,10 +268,9 @@ def run_check(prop, tier, verif_seed, runs=None, workers=None, shrink=True, quie
         path = os.path.join(OUT_DIR, f"{prop}-{slug(cls)}-{verif_seed}.replay.json")
         with open(path, "w") as fh:
             json.dump(replay, fh, indent=1, sort_keys=True, default=str)
-        violations_out.append((cls, path, len(lst)))
+        violations_out.append((cls, path, count))
 
     wall_s = time.time() - t0
-    n_ok = len(results) - sum(1 for _, _, rj in results if rj["harness_error"])
     evidence = {
         "property_id": prop, "tier": tier, "seed": int(verif_seed), "level": "exploration",
         "coverage": {
@@ -245,6 +289,7 @@ def run_check(prop, tier, verif_seed, runs=None, workers=None, shrink=True, quie
             "known_findings_seen": {c: n for c, (e, n) in known_seen.items()},
             "violation_classes": {c: n for c, _, n in violations_out},
             "harness_errors": len(harness_errors),
+            "batch_digest": "sha256:" + batch.hexdigest(),
             "workers": workers,
             "extension_fingerprint": extension_fingerprint(),
         },
